@@ -68,8 +68,20 @@ for _p in ("C01", "C02", "C09", "C11", "C13"):
                      rule=DECIDE_RULE + "; plus the MC_hist family wb (validation by 304 with / without Cache-Control, Age, Date, by a new "
                                         "representation, in the foreground or background, then probes)")
 # only-if-cached also on requests the cache never answers from its store (other methods, Range): family "store"
-PLANS["C18"] = Plan("C18", lambda tier: decide_models(tier) + [mc("MC_store", "store", Defects="{}", Family=q("store"), Tier=q(tier), Export="TRUE",
+def c18_faults(scn, tier, seed):
+    """only-if-cached holds under store faults too: the fault scenarios with the kind of failure varied (no logger groups)"""
+    out = []
+    for s in scn:
+        if not s["id"].startswith("faults/"):
+            out.append(s)
+            continue
+        out.append([x for x in fault_variation([s], tier, seed) if x["id"].endswith("/log0")][0] | {"grp": "", "gk": "", "spv": 0})
+    return out
+
+
+PLANS["C18"] = Plan("C18", lambda tier: decide_models(tier) + fault_models(tier) + [mc("MC_store", "store", Defects="{}", Family=q("store"), Tier=q(tier), Export="TRUE",
                                                                     replay_cap={"quick": 1500, "thorough": 20000})],
+                    post=lambda scn, tier, seed: c18_faults(scn, tier, seed),
                     extra=gen.random_decide, rule=DECIDE_RULE + "; plus the MC_store family, in which only-if-cached rides on HEAD / POST / Range requests")
 
 
@@ -165,7 +177,7 @@ SHAPE_DIRECTIVES = [{}, {"fl": ["only-if-cached"]}, {"ms": gen.NOARG}, {"fl": ["
 def uri_scenarios(rows, tier, seed):
     """store a response for render(a), then request render(b)"""
     r = random.Random(seed * 2654435761 + 9)
-    cap = 2500 if tier == "quick" else 10 ** 9
+    cap = 14000 if tier == "quick" else 10 ** 9   # (every pair of the quick model: a pair is three to five requests)
     if len(rows) > cap:
         # all equivalent pairs and all pairs that differ in a single component, a seeded sample of the rest
         def dist(x):
@@ -188,6 +200,7 @@ def uri_scenarios(rows, tier, seed):
                       {"op": "req", "rq": gen.rq(u=1, url=ub), "ans": [a_ok]}]
         out.append({"id": "uri/%06d" % i, "backend": "fs" if i % 25 == 0 else "mem", "opt": {}, "steps": steps, "grp": "", "spv": 0,
                     "meta": {"a": ua, "b": ub, "equiv": x["equiv"]}})
+    out += [dict(s, id="uri" + s["id"]) for s in gen.reused_requests(tier)]   # a caller that reuses its request object for another URL
     base = "http://example.com/a?q=a"
     for j, (m1, r1, m2, r2) in enumerate(METHOD_SHAPES):
         for k, (ua, ub, same) in enumerate([(base, base, True), (base, "HTTP://EXAMPLE.com:80/./a?q=%61", True), (base, "http://example.com/a?q=b", False)]):
@@ -345,6 +358,9 @@ def fault_variation(scn, tier, seed):
             ops = (st.get("pred") or {}).get("ops") or []
             fl = []
             for f in st["faults"]:
+                if f.get("kind") not in (None, "", "err"):
+                    fl.append(f)   # a scenario that names its kind of failure keeps it (byte mutations at given positions)
+                    continue
                 kind = "err"
                 if f["n"] <= len(ops) and ops[f["n"] - 1] == "get" and r.random() < 0.8:
                     kind = r.choice(GET_KINDS)
@@ -400,7 +416,8 @@ def conc_scenarios(rows, tier, seed):
     return out
 
 
-PLANS["C16"] = Plan("C16", conc_models, extra=gen.concurrent, rows_to_scenarios=conc_scenarios, race=True, level="model_checking",
+PLANS["C16"] = Plan("C16", conc_models, extra=lambda tier, seed: gen.concurrent(tier, seed) + gen.reused_requests(tier),
+                    rows_to_scenarios=conc_scenarios, race=True, level="model_checking",
                     rule="MC_conc: every interleaving, at the granularity of store operations and origin calls, of two concurrent "
                          "requests (same variant, other variant, unsafe method; thorough: other URI, no-cache) and the background "
                          "revalidation a stale-while-revalidate serve leaves behind, after a prefix that stored two variants, followed "
